@@ -286,6 +286,8 @@ def _run_entry(E, body, rr, st, gs, args, contract, first):
         from . import specs as _specs
         E.track_adv = _specs.root_key(body) in _specs.ADV_TRACK
         E.track_pop = _specs.root_key(body) in _specs.POP_TRACK
+        E.track_agree = _specs.root_key(body) in _specs.AGREE_TRACK
+        E.agree_props = _specs.AGREE_TRACK.get(_specs.root_key(body))
         E.track_pull = _specs.root_key(body) in _specs.ITER_HOOKS and 'C16' in _specs.ITER_HOOKS[_specs.root_key(body)][0]
         ap = _specs.ASKED_ONCE.get(_specs.root_key(body))
         E.asked_props = ap
